@@ -1096,7 +1096,10 @@ class Interp:
                     if isinstance(o, Obj) and o.kind in self.instance_classes and name:
                         fn = self._class_def(o.kind, name)
                         if isinstance(fn, ast.FunctionDef):
-                            return self.call_function(fn, [o, other], {}, {}, self.instance_classes[o.kind].split(".")[0])
+                            r_ = self.call_function(fn, [o, other], {}, {}, self.instance_classes[o.kind].split(".")[0])
+                            if r_ is NotImplemented:
+                                continue                     # Python then tries the reflected method of the other operand
+                            return r_
                         if isinstance(fn, ast.Assign):          # e.g. __mul__ = partialmethod(binary_operator, operator='gp')
                             bound = self._class_attribute(o, fn, name, self.instance_classes[o.kind].split(".")[0])
                             if isinstance(bound, PyFunc):
